@@ -749,9 +749,14 @@ static int run_cmd(struct ctx *c, char **t, int nt) {
          group-less keys), then every one is read back (directly / after write + read): a setter must reach the key it was called
          for, wherever that key sits among the entries ----- */
   if (!strcmp(op, "rtmatrix")) {
-    const char *T = ARG(1); int viafile = !strcmp(ARG(2), "file"); char *dir = tokstr(ARG(3), NULL);
+    const char *T = ARG(1); int viafile = strstr(ARG(2), "file") != NULL, parsed = ARG(2)[0] == 'p'; char *dir = tokstr(ARG(3), NULL);
     uint64_t count = 0, bad = 0, firstbad = 0; econf_file *kf = NULL, *rd = NULL;
-    if (econf_newKeyFile(&kf, '=', '#')) { free(dir); return 0; }
+    if (parsed) {       /* the object the values are set on stems from a file that BEGINS with a section header */
+      char *bp; if (asprintf(&bp, "%s/rtm-base.conf", dir) < 0) bp = NULL; mkparent(bp);
+      wfile(bp, "[g1]\nseed=1\n[other]\nx=y\n", 24);
+      econf_err be = econf_readFile(&kf, bp, "=", "#"); free(bp);
+      if (be) { free(dir); return 0; }
+    } else if (econf_newKeyFile(&kf, '=', '#')) { free(dir); return 0; }
     int nv = nt - 4; econf_err es = 0;
     for (int round = 0; round < 2; round++) {            /* round 0: set all; round 1: get all */
       econf_file *q = kf;
